@@ -146,7 +146,12 @@ void run_case(const vf::Args& a, uint64_t idx, const Tol& K = Tol()) {
       // at coinciding eigenvalues (closer than 100 seps) the derivatives are outside the property
       if (C::gaprel(A, N, p) > 1e-8L && C::differentiable(A, p)) R.check(nm("normal(second)=normal"), S, idx, h, e, K.consistency * eps * dmax(nn, 1), dump);
       else R.skip(nm("normal(second)=normal"), S);
-      if constexpr (C::porous) R.check(nm("dvalue_df(second)=dvalue_df(normal)"), S, idx, h, std::fabs(o1.dvdf - o2.dvdf), K.consistency * eps * dmax(std::fabs(o1.dvdf), vs), dump);
+      if constexpr (C::porous) {
+        // at |triaxiality| of several hundreds d(s*)/df ~ cosh(3 q2 sm/(2 s*)) overflows: not judged
+        if (std::isfinite((double)o1.dvdf) || std::isfinite((double)o2.dvdf))
+          R.check(nm("dvalue_df(second)=dvalue_df(normal)"), S, idx, h, std::fabs(o1.dvdf - o2.dvdf), K.consistency * eps * dmax(std::fabs(o1.dvdf), vs), dump);
+        else R.skip(nm("dvalue_df(second)=dvalue_df(normal)"), S);
+      }
     }
     // an equivalent stress is a norm-like, non-negative quantity (not so for yield functions)
     if constexpr (requires { C::yield_function; }) {} else {
